@@ -26,6 +26,10 @@ pub fn zero_ops() -> Vec<OpK> {
     vec![OpK::Add, OpK::Mul, OpK::Scale(0.0), OpK::Relu]
 }
 
+pub fn image_ops() -> Vec<OpK> {
+    vec![OpK::Conv { sr: 1, sc: 1 }, OpK::Add, OpK::Mul, OpK::Relu, OpK::Sum(2), OpK::Sigmoid]
+}
+
 pub fn full_ops() -> Vec<OpK> {
     vec![
         OpK::Add,
@@ -58,12 +62,14 @@ pub fn spaces(tier: Tier, var: u64) -> Vec<Space> {
             Space { name: "same-shape/core", leaves: same_shape_pool(var), ops: core_ops(), max_nodes: 3, masks: None },
             Space { name: "broadcast/full", leaves: broadcast_pool(var), ops: full_ops(), max_nodes: 2, masks: Some(vec![0b1111, 0b0001, 0b0110, 0b1010, 0b0101]) },
             Space { name: "same-shape/zero", leaves: same_shape_pool(var), ops: zero_ops(), max_nodes: 3, masks: Some(vec![0b111, 0b011, 0b101]) },
+            Space { name: "image/conv", leaves: image_pool(var), ops: image_ops(), max_nodes: 2, masks: Some(vec![0b1111, 0b0110, 0b1001]) },
         ],
         Tier::Thorough => vec![
             Space { name: "same-shape/core", leaves: same_shape_pool(var), ops: core_ops(), max_nodes: 4, masks: Some(vec![0b111, 0b011, 0b101, 0b110, 0b001]) },
             Space { name: "same-shape/core3", leaves: same_shape_pool(var), ops: core_ops(), max_nodes: 3, masks: None },
             Space { name: "broadcast/full", leaves: broadcast_pool(var), ops: full_ops(), max_nodes: 2, masks: None },
             Space { name: "same-shape/zero", leaves: same_shape_pool(var), ops: zero_ops(), max_nodes: 3, masks: None },
+            Space { name: "image/conv", leaves: image_pool(var), ops: image_ops(), max_nodes: 3, masks: None },
         ],
     }
 }
